@@ -371,6 +371,54 @@ def programs_wide(mode):
                                        ['yield', 0.5], ['next', 'n0']]
                 p['horizon'] = 4.5
                 (core_ if c == 's' else extra).append(p)
+    if mode == 'nrt':
+        # 4a. the SAME (send time > 0, latency) pair converted outside
+        # routines (a function task: absolute) and inside a routine
+        # (logical time + latency) in one program, in both orders, through
+        # every entry point: each bundle keeps its own time in the list
+        # and in the bytes
+        ct = [('send', 0.5), ('send', 0), ('send', 0.25), ('send', None),
+              ('send', -1), ('sendm',), ('sendb', 0.25, 0.5),
+              ('sendb', None, 0), ('sendb', 0, 0),
+              ('sx', 'bundle', [0.25, ['/t', 'T', [0.5, ['/u', 'T']]]]),
+              ('sx', 'bundle', [0, ['/t', 'T'],
+                                [0.25, ['/u', 'T'], [0.5, ['/v', 'T']]]]),
+              ('sx', 'msg', [None, ['/t', 'T', [0.25, ['/u', 'T']]]]),
+              ('sx', 'msg', [None, ['/t', 'T', ['/u', 'T',
+                                               [0.5, ['/v', 'T']]]]]),
+              ('sx', 'clumped', [0.25, ['/t', 'T']]),
+              ('sx', 'clumped', [0.25, ['/t', 'T'], [0.5, ['/u', 'T']]]),
+              ('sx', 'bind', [0.25, ['/t', 'T'], ['/u', 'T']]),
+              ('sx', 'bind', [0, ['/t', 'T']])]
+        for cr in clocks:
+            for cf in clocks:
+                for it in ct:
+                    for func_first in (True, False):
+                        p = make_prog(cr, [it], [])
+                        p['routines']['r0'] = \
+                            [['yield', 0.5 * c05.TEMPO[cr]]] + \
+                            p['routines']['r0']
+                        p['clocks'][cf] = c05.CLOCKSPEC[cf]
+                        fs = make_prog('s', [it], [])['routines']['r0'][0]
+                        fs = fs[:-1] + [61]
+                        if fs[0] == 'sx':
+                            fs[2] = fill(it[2], 61)
+                        tf = c05.TEMPO[cf]
+                        if func_first:
+                            # queued before the routine re-schedules itself
+                            p['funcs'] = {'f0': {'returns': [None],
+                                                 'sends': {'0': [fs]}}}
+                            p['actors']['main'].append(
+                                ['sched', cf, 0.5 * tf, 'f0'])
+                        else:
+                            p['funcs'] = {'f0': {
+                                'returns': [0.25 * tf, None],
+                                'sends': {'1': [fs]}}}
+                            p['actors']['main'].append(
+                                ['sched', cf, 0.25 * tf, 'f0'])
+                        p['horizon'] = 4.0
+                        assert context_pairs(p), p
+                        core_.append(p)
     if mode == 'rt':
         # 4b. NetAddr.sync(latency=L, elements=...) from a routine
         for c in clocks:
@@ -941,8 +989,15 @@ def check_nrt(prog, res):
         enc = b''.join(_enc_entry(b, bases.get(i))
                        for i, b in enumerate(score))
         if enc.hex() != res['raw']:
-            dis.append(('nrt-raw-differs-from-list', enc.hex()[:200],
-                        res['raw'][:200], ''))
+            # programs that convert one and the same (send time > 0,
+            # latency) pair inside AND outside routines have a kind of
+            # their own: they show a confusion of the two contexts within
+            # one fresh process
+            kind = 'nrt-raw-differs-from-list' + (
+                '-same-pair-inside-and-outside' if context_pairs(prog)
+                else '')
+            dis.append((kind, enc.hex()[:200], res['raw'][:200],
+                        _raw_detail(score, bases, res['raw'])))
     except Exception as ex:
         dis.append(('nrt-raw-unencodable', None, repr(ex), ''))
     for e in res['trace']:
@@ -985,6 +1040,68 @@ def _enc_entry(b, base=None):
                 'elements': [blob_of(e) for e in a[1:]]}
     raw = osc10.encode(struct_of(b))
     return struct.pack('>i', len(raw)) + raw
+
+
+def _raw_detail(score, bases, rawhex):
+    """First score entry whose bytes differ from its encoding."""
+    raw = bytes.fromhex(rawhex)
+    pos = 0
+    for i, b in enumerate(score):
+        try:
+            e = _enc_entry(b, bases.get(i))
+        except Exception as ex:
+            return f'entry {i} {b}: {ex!r}'
+        got = raw[pos:pos + len(e)]
+        if got != e:
+            try:
+                dec = osc10.decode(got[4:])
+            except osc10.OscError as ex:
+                dec = str(ex)
+            return (f'entry {i}: list has {b}, the bytes at its place '
+                    f'decode to {dec} (timetag / 2^32 = '
+                    f'{dec["timetag"] / 2 ** 32 if isinstance(dec, dict) and "timetag" in dec else None})')
+        pos += len(e)
+    return f'{len(raw) - pos} bytes after the last entry'
+
+
+def send_latencies(s):
+    """Every latency one send converts into a time (all bundle levels,
+    bundles inside messages; a message is sent as a bundle of latency 0 in
+    NRT)."""
+    def bun(b):
+        out = [b[0]]
+        for e in b[1:]:
+            out += msg(e) if isinstance(e[0], str) else bun(e)
+        return out
+
+    def msg(m):
+        out = []
+        for a in m[1:]:
+            if isinstance(a, list) and a:
+                out += msg(a) if isinstance(a[0], str) else bun(a)
+        return out
+    if s['kind'] == 'send':
+        return [s['L']]
+    if s['kind'] == 'sendm':
+        return [0.0]
+    if s['kind'] == 'sendb':
+        return [s['L'], s['L2']]
+    if s['via'] == 'msg':
+        return [0.0] + msg(s['b'][1])
+    return bun(s['b'])
+
+
+def context_pairs(prog):
+    """(send time, latency) pairs with send time > 0 that the program
+    converts both inside a routine (logical time + latency) and outside
+    routines (absolute)."""
+    inside, outside = set(), set()
+    for s in expected_sends(prog, 'nrt'):
+        if s['refused'] is not False or s['t'] <= 0:
+            continue
+        for L in send_latencies(s):
+            (inside if s['in_routine'] else outside).add((s['t'], L))
+    return sorted(inside & outside, key=repr)
 
 
 def entry_time(s):
